@@ -63,8 +63,8 @@ Definition so (f : N) : scell := (Orphan, f).
 Definition rsz (h w : N) (g : grid scell) : op := Resize (N.to_nat h) (N.to_nat w) g.
 
 (* an iteration of the render loop in case files *)
-Definition itr (a : N) (s : grid cell) (frame : bool) (p : option N) (k : N) : iter :=
-  mkiter (N.to_nat a) s (if frame then AWait else AWaitNoFrame) (option_map N.to_nat p) (N.to_nat k).
+Definition itr (a : N) (s : grid cell) (frame : bool) (p : option N) (k : N) (rz : bool) : iter :=
+  mkiter (N.to_nat a) s (if frame then AWait else AWaitNoFrame) (option_map N.to_nat p) (N.to_nat k) rz.
 
 Inductive c01_case :=
   Hist (h w : N) (widths : list (N * N)) (isizes : list (N * (N * N)))
